@@ -36,6 +36,16 @@ try:
         X.load_enums(os.path.join(src, "src/yaml/chunker.rs"))
         lib = X.Mir(os.path.join(os.path.dirname(mirf), "lib.mir"))
         E.k9_chunker_next(lib, rep, 4 if tier == "thorough" else 3)
+    elif group == "e3_k10_toml_output":
+        X.load_enums(os.path.join(src, "src/toml.rs"))
+        lib = X.Mir(os.path.join(os.path.dirname(mirf), "lib.mir"))
+        E.k10_toml_output(lib, rep)
+    elif group == "e3_k11_dispatch":
+        lib = X.Mir(os.path.join(os.path.dirname(mirf), "lib.mir"))
+        E.k11_translate_dispatch(lib, rep)
+    elif group == "e3_k12_framing":
+        lib = X.Mir(os.path.join(os.path.dirname(mirf), "lib.mir"))
+        E.k12_output_framing(lib, rep)
     elif group == "e3_k8_from_reader":
         lib = X.Mir(os.path.join(os.path.dirname(mirf), "lib.mir"))
         E.k8_from_reader(lib, rep)
